@@ -53,18 +53,24 @@ structure XRead where
   frag : List Nat       -- unused fragmentation hints
   deriving Repr, DecidableEq
 
+/-- The loop of `xread`; `fuel` bounds the number of `read(2)` calls (every call
+that does not end the loop stores at least one byte, so `vacant` calls are
+enough). -/
+def xreadGo : Nat → List UInt8 → Nat → List Nat → XRead
+  | 0, inp, vacant, frag => ⟨[], inp, vacant, frag⟩
+  | fuel + 1, inp, vacant, frag =>
+    if vacant = 0 then ⟨[], inp, 0, frag⟩
+    else
+      let rd := readSize (frag.headD vacant) vacant inp.length
+      if rd = 0 then ⟨[], inp, vacant, frag.tail⟩       -- `if (0 == rd) break;`
+      else
+        let r := xreadGo fuel (inp.drop rd) (vacant - rd) frag.tail
+        ⟨inp.take rd ++ r.got, r.rest, r.vacant, r.frag⟩
+
 /-- `xread(buf, &vacant)`.  `frag` lists the sizes the successive `read(2)`
 calls are inclined to return (missing entries: as much as asked). -/
 def xread (inp : List UInt8) (vacant : Nat) (frag : List Nat) : XRead :=
-  if _hv : vacant = 0 then ⟨[], inp, 0, frag⟩
-  else
-    let rd := readSize (frag.headD vacant) vacant inp.length
-    if _hr : rd = 0 then ⟨[], inp, vacant, frag.tail⟩       -- `if (0 == rd) break;`
-    else
-      let r := xread (inp.drop rd) (vacant - rd) frag.tail
-      ⟨inp.take rd ++ r.got, r.rest, r.vacant, r.frag⟩
-termination_by vacant
-decreasing_by omega
+  xreadGo vacant inp vacant frag
 
 /-! ## The sniff in `work()` -/
 
@@ -85,8 +91,8 @@ inductive Decision
 
 /-- `vacant == 0 && ntohl(header) >= MAGIC(1) && ntohl(header) <= MAGIC(9)`. -/
 def isMagic (hdr : List UInt8) (vacant : Nat) : Bool :=
-  vacant == 0 && (decide (sniffMagicBase + sniffLo ≤ be32 hdr) &&
-                  decide (be32 hdr ≤ sniffMagicBase + sniffHi))
+  vacant == 0 && (Nat.ble (sniffMagicBase + sniffLo) (be32 hdr) &&
+                  Nat.ble (be32 hdr) (sniffMagicBase + sniffHi))
 
 /-- The three-way branch of `work()` given the bytes `xread` stored. -/
 def decision (hdr : List UInt8) (vacant : Nat) (force stdout : Bool) : Decision :=
@@ -104,9 +110,9 @@ def sniff (inp : List UInt8) (frag : List Nat) (force stdout : Bool) :
 
 def u32 : Nat := 4294967296
 /-- `x--` on an `unsigned`. -/
-def dec32 (x : Nat) : Nat := (x + (u32 - 1)) % u32
+def dec32 (x : Nat) : Nat := (x + 4294967295) % 4294967296
 /-- `x++` on an `unsigned`. -/
-def inc32 (x : Nat) : Nat := (x + 1) % u32
+def inc32 (x : Nat) : Nat := (x + 1) % 4294967296
 
 /-- Program counter of `source_thread_proc`. -/
 inductive Src
